@@ -158,6 +158,21 @@ def chk_der_twin(T, v, M):
         return [fail('der-twin', T, v, 'DER differs', got=got, want=ref, quirk=x690.which_quirks(T, v, 'DER', got))], 1
     # DER fixes its modes: caller-supplied encoder options must not change the bytes
     out = []
+    # ... nor does a per-object BER preference of a REAL (Real.binEncBase)
+    from standins.object_checks import set_real_bases
+    for b_ in (8, 16):
+        tuned = bridge.to_value(T, v)
+        if set_real_bases(tuned, b_):
+            try:
+                g3 = de.encode(tuned)
+                g4 = ce.encode(tuned)
+            except Exception as e:
+                out.append(fail('der-twin', T, v, 'canonical encoder with binEncBase=%d raised %s' % (b_, type(e).__name__)))
+                continue
+            if g3 != got:
+                out.append(fail('der-twin', T, v, 'DER output depends on Real.binEncBase = %d' % b_, got=g3, want=got))
+            if g4 != ce.encode(bridge.to_value(T, v)):
+                out.append(fail('der-twin', T, v, 'CER output depends on Real.binEncBase = %d' % b_, got=g4))
     for opts in (dict(maxChunkSize=1), dict(defMode=False), dict(maxChunkSize=2, defMode=False)):
         try:
             g2 = de.encode(bridge.to_value(T, v), **opts)
@@ -549,6 +564,9 @@ def chk_noncanonical(T, v, M):
         if label == 'length' and alt == 'indefinite':
             decs = [('DER', dd)]
         elif label == 'segmented':
+            decs = [('DER', dd)]
+        elif label == 'empty-bits':
+            # the empty bit string in constructed form (no segment at all, or one empty segment) is still constructed
             decs = [('DER', dd)]
         elif label == 'bool':
             decs = [('DER', dd), ('CER', cd)]
